@@ -4,6 +4,7 @@ import (
 	"encoding/xml"
 	"fmt"
 	"strconv"
+	"strings"
 
 	"github.com/privacybydesign/gabi/big"
 )
@@ -53,7 +54,16 @@ func (bl *Bases) UnmarshalXML(d *xml.Decoder, start xml.StartElement) error {
 		if b.Sign() < 0 {
 			return fmt.Errorf("Bases element %d was a negative integer", i)
 		}
-		arr[i] = b
+		// The name of the element says which base this is: Base_0 ... Base_(num-1), each once
+		name := t.Bases[i].XMLName.Local
+		idx, err := strconv.Atoi(strings.TrimPrefix(name, "Base_"))
+		if err != nil || !strings.HasPrefix(name, "Base_") || name != "Base_"+strconv.Itoa(idx) || idx < 0 || idx >= t.Num {
+			return fmt.Errorf("Bases element %d has name %s, expected Base_0 ... Base_%d", i, name, t.Num-1)
+		}
+		if arr[idx] != nil {
+			return fmt.Errorf("Bases element %s occurs more than once", name)
+		}
+		arr[idx] = b
 	}
 
 	*bl = arr
@@ -86,6 +96,9 @@ func (el *EpochLength) UnmarshalXML(d *xml.Decoder, start xml.StartElement) erro
 
 	if err := d.DecodeElement(&t, &start); err != nil {
 		return err
+	}
+	if t.Epoch.Length < 0 {
+		return fmt.Errorf("Epoch length was a negative integer")
 	}
 	*el = EpochLength(t.Epoch.Length)
 	return nil
